@@ -115,6 +115,26 @@ def run(data):
                 if bad: fails.append({"codec": name, "kind": "quantity", "object": describe(q), "got": describe(r), "what": bad, "spec": qs, "unit_text_ok": unit_text_ok(q.unit)})
             except Exception as ex:  # noqa
                 fails.append({"codec": name, "kind": "quantity", "object": describe(q), "what": "raised " + implib.errclass(ex) + ": " + str(ex)[:100], "spec": qs, "unit_text_ok": unit_text_ok(q.unit)})
+    # a unit text that was deserialised once (prefix + symbol) and is later registered as the exact symbol of a new unit:
+    # quantities of the new unit must still round-trip to the new unit (run last: it registers units)
+    for i, (ps, us, dim) in enumerate(data.get("late", [])):
+        try:
+            text = ps + us
+            if text in Unit._by_symbol: continue
+            old = Prefix._by_symbol[ps] * Unit._by_symbol[us]
+            for name, f in CODECS + [("sql-composite", lambda o: Quantity(*o.__composite_values__()))]:
+                f(Quantity(2, old))
+            new = Dimension._by_name[dim].unit(f"vf serial late {i}", text)
+            q = Quantity(2, new)
+            for name, f in CODECS + [("sql-composite", lambda o: Quantity(*o.__composite_values__()))]:
+                counts[f"late:{name}"] = counts.get(f"late:{name}", 0) + 1
+                case_ids.append(f"late:{name}:{text}")
+                r = f(q)
+                if not (isinstance(r, Quantity) and r.unit is new and r.magnitude == 2):
+                    fails.append({"codec": name, "kind": "quantity", "object": describe(q), "got": describe(r), "unit_text_ok": True,
+                                  "what": f"after {text!r} had been deserialised as prefix+symbol and was then registered as a new unit's symbol, the quantity comes back in another unit"})
+        except Exception as ex:  # noqa
+            fails.append({"codec": "late", "kind": "quantity", "object": [ps, us, dim], "what": "raised " + implib.errclass(ex) + ": " + str(ex)[:100], "unit_text_ok": True})
     return {"counts": counts, "fails": fails, "case_ids": case_ids, "registered": {"dimensions": len(Dimension._known), "prefixes": len(Prefix._known), "units": len(Unit._known)}}
 
 implib.main_io(run)
